@@ -26,11 +26,17 @@ Definition bs_degenerate (spot sigma maturity : R) : bool :=
    CFBlackScholes._call_put to scipy.stats.norm.cdf) *)
 Definition PhiR (x : R) : R := 1 / 2 + / sqrt (2 * PI) * RInt (fun t => exp (- (t * t) / 2)) 0 x.
 
-(* ExponentialOfLevyModel.__init__ on the real reading (the exponent on the imaginary axis x = -i is kappa(1), its imaginary part 0):
-   `finite1` says whether kappa(1) is finite, i.e. whether 1 lies in the strip where E[exp(u L_1)] exists.  None = ValueError. *)
-Definition exp_omega_checked (finite1 : bool) (kappa : R -> R) : option R :=
-  let z := exp_exponent_at_minus_i kappa in
-  if exp_omega_raises finite1 z 0 then None else Some (exp_omega z).
+(* ExponentialOfLevyModel.__init__: z = complex(levy_exponent(x=-1j)) enters as the data (finite1 = np.isfinite(z), z_re, z_im);
+   the generated guard decides, None = ValueError.  On the real reading z_re = kappa(1), z_im = 0 inside the strip where
+   E[exp(u L_1)] exists; beyond it the closed forms give inf (HEM at the pole), a complex power (CGMY) or the log of a negative
+   number (VG), i.e. finite1 = false or z_im <> 0 -- the branch that fires is an observation on the implementation (harness). *)
+Definition exp_omega_checked (finite1 : bool) (z_re z_im : R) : option R :=
+  if exp_omega_raises finite1 z_re z_im then None else Some (exp_omega z_re).
+(* ExponentialOfHEMModel.__init__: its own guard first (the HEM closed form is finite and real beyond the pole), then the generic one *)
+Definition hem_exp_omega_checked (eta1 : R) (finite1 : bool) (z_re z_im : R) : option R :=
+  if hem_exp_raises eta1 then None else exp_omega_checked finite1 z_re z_im.
+(* where 1 lies in the strip, per family (right-tail rate > 1): HEM eta1, CGMY M, VG lambda_+ *)
+Definition strip_contains_one (tail_rate : R) : bool := Rltb 1 tail_rate.
 
 (* E[S_t^u] for a constructed exponential model, composed exactly as ExponentialOfLevyModel.log_characteristic_function does
    (read at x = -i u):  exp(u (log_spot + t (r - d + omega))) * exp(t kappa(u)),  omega = -kappa(1)  (generated pieces) *)
